@@ -222,6 +222,14 @@ Definition get_prev_job_output_volume (p : prevop) (off : Z) : option vol :=
 
 Definition shape_size (f : fmap) : Z := fm_w f * fm_h f * fm_d f.
 
+(* the double loop of calc_blockdep for the overlapping feature map [fm] (IFM or IFM2) *)
+Definition blockdep_core (ar : archp) (p : prevop) (c : curop) (fm : fmap) (ibd : Z) : Z :=
+  blockdep_loop vol
+    (get_first_job_input_volume ar c ibd)
+    (get_prev_job_output_volume p)
+    (fun ia oa => intersects fm ia (po_ofm p) oa)
+    (ar_maxdep ar).
+
 (* calc_blockdep(arch, prev_op, npu_op); None = AssertionError *)
 Definition calc_blockdep (ar : archp) (prev : option prevop) (c : curop) : option Z :=
   match prev with
@@ -236,15 +244,9 @@ Definition calc_blockdep (ar : archp) (prev : option prevop) (c : curop) : optio
         else if negb ifm_ov && negb ifm2_ov then Some (ar_maxdep ar)
         else if ifm2_ov && (shape_size (co_ifm2 c) <? shape_size (co_ifm c)) then Some 0
         else
-          let ofm := if ifm_ov then co_ifm c else co_ifm2 c in
           match get_ifm_ofm_block_depth ar c with
           | None => None
-          | Some ibd =>
-              Some (blockdep_loop vol
-                      (get_first_job_input_volume ar c ibd)
-                      (get_prev_job_output_volume p)
-                      (fun ia oa => intersects ofm ia (po_ofm p) oa)
-                      (ar_maxdep ar))
+          | Some ibd => Some (blockdep_core ar p c (if ifm_ov then co_ifm c else co_ifm2 c) ibd)
           end
   end.
 
